@@ -266,6 +266,8 @@ func newWorld(s *core.Sim, prop, tier string) *World {
 		gone: map[string]bool{}, busy: map[string]*core.Task{}, schedBusy: map[string]*core.Task{}, cloud: map[string]string{}, memdump: map[string][]memEntry{}, unsched: map[string]bool{}}
 	w.K = simkube.New(s)
 	w.K.OnMutate = w.onMutate
+	s.OnPanic = w.onPanic
+	s.OnLockLeak = w.onLockLeak
 	c := w.C
 	w.topo = genTopo(c)
 	w.confVers = append(w.confVers, w.topo.Snapshot())
@@ -917,4 +919,53 @@ func classify(e string) string {
 		e = e[:40]
 	}
 	return strings.ReplaceAll(e, " ", "-")
+}
+
+// onPanic: a panic inside galaxy code ends the request (net/http and the informer's handler wrapper recover
+// it in the real daemon). It is a verdict only for C18; a panic inside the harness is infrastructure trouble.
+func (w *World) onPanic(t *core.Task, msg string) {
+	first := msg
+	if i := strings.Index(first, "\n"); i > 0 {
+		first = first[:i]
+	}
+	inGalaxy := strings.Contains(msg, "tkestack.io/galaxy/pkg/") || strings.Contains(msg, "tkestack.io/galaxy/cni/")
+	if !inGalaxy || strings.Contains(first, "verifsim") {
+		w.S.Infra = fmt.Sprintf("task %s panicked outside galaxy code: %s", t.Name, tailStr(msg, 1500))
+		w.S.Stop()
+		return
+	}
+	site := panicSite(msg)
+	w.S.Stat("panic." + site)
+	if w.armed("C18") {
+		w.fail("C18.panic", "panic@"+site, "task %s panicked: %s at %s", t.Name, first, site)
+	}
+}
+
+func (w *World) onLockLeak(t *core.Task, held int) {
+	w.S.Stat("lockleak")
+	if w.armed("C18") {
+		w.fail("C18.lock-leak", "lock-leak", "task %s ended while holding %d lock(s)", t.Name, held)
+	}
+}
+
+func tailStr(s string, n int) string {
+	if len(s) > n {
+		return s[:n]
+	}
+	return s
+}
+
+// panicSite extracts the first galaxy frame (function name) of a panic stack.
+func panicSite(msg string) string {
+	for _, l := range strings.Split(msg, "\n") {
+		l = strings.TrimSpace(l)
+		if strings.HasPrefix(l, "tkestack.io/galaxy/pkg/") || strings.HasPrefix(l, "tkestack.io/galaxy/cni/") {
+			if i := strings.Index(l, "("); i > 0 {
+				l = l[:i]
+			}
+			l = strings.TrimPrefix(l, "tkestack.io/galaxy/")
+			return l
+		}
+	}
+	return "unknown"
 }
